@@ -79,13 +79,9 @@ def convert_mup(s):
 
 
 def dedupe(objs):
-    seen, out = set(), []
-    for o in objs:
-        k = json.dumps(o, sort_keys=True)
-        if k not in seen:
-            seen.add(k)
-            out.append(o)
-    return out
+    """distinct objects in a canonical order (TLC prints in a worker-dependent order)"""
+    d = {json.dumps(o, sort_keys=True): o for o in objs}
+    return [d[k] for k in sorted(d)]
 
 
 def write_ndjson(path, objs):
@@ -148,8 +144,10 @@ def selftest_fs(wd, recs):
     first(lambda r: rd(r) and r["res"] == 0, setv("res", 1000), "read-never-written")
     first(lambda r: r["ev"] == "ret" and r["op"] == "list" and r["res"] == 0 and r["keys"],
           lambda r: r.__setitem__("keys", r["keys"][1:]), "list-misses-key")
-    first(lambda r: r["ev"] == "ret" and r["op"] == "list" and r["res"] == 0 and not r["keys"] and r["k"] == 1,
-          setv("keys", [1]), "list-invents-key")
+    # (a key that was removed lazily may legitimately still be listed: avoid those runs)
+    lazy_runs = {r["run"] for r in recs if r["ev"] == "call" and r["op"] == "remove" and r["lazy"]}
+    first(lambda r: r["ev"] == "ret" and r["op"] == "list" and r["res"] == 0 and not r["keys"] and r["k"] == 1
+          and r["run"] not in lazy_runs, setv("keys", [1]), "list-invents-key")
     first(lambda r: r["ev"] == "ret" and r["op"] == "write", setv("res", -2), "write-fails")
     # a completed write dropped from the trace: the later read of it is unexplained
     for k, r in enumerate(recs):
@@ -204,9 +202,10 @@ def selftest_mup(wd, recs):
                 and "remove-needed" not in done):
             m = [dict(x) for x in recs]
             m[k].update({"op": "remove", "cid": -1, "lazy": False})
-            prev = [x for x in recs[:k] if x["run"] == r["run"] and x["ev"] == "sop" and x["class"] == "upd"
-                    and x["op"] == "write" and x["k"] == r["k"] - 1]
-            if prev:
+            sops = [x for x in recs[:k] if x["run"] == r["run"] and x["ev"] in ("sop", "crash")]
+            prev = sops[-1:] if sops else []
+            if prev and prev[0]["ev"] == "sop" and prev[0]["class"] == "upd" and prev[0]["op"] == "write" \
+                    and prev[0]["applied"] and prev[0]["k"] == r["k"] - 1:
                 # remove the previous (needed) update file instead of writing this one
                 m[k]["k"] = r["k"] - 1
                 muts.append(("remove-needed", m))
@@ -230,13 +229,21 @@ def run(tier, seed):
     for cfg in (["KVStoreMC4.cfg", "KVStoreMC1.cfg"] if thorough else ["KVStoreMC.cfg", "KVStoreMC1.cfg"]):
         r, sc = mc("KVStoreMC", cfg, kv_actions, 3000 if thorough else 600)
         mcs.append(("KVStoreMC/" + cfg, r))
+        sc = dedupe(sc)
+        cap = 3000 if thorough else 450
+        if len(sc) > cap:
+            sc = rng.sample(sc, cap)
+        for i, s in enumerate(sc):
+            if cfg == "KVStoreMC1.cfg":
+                # the model's two keys live in two namespaces: keys 1 and 3 of the layouts 0, 2, 3
+                s["layout"] = (0, 2, 3)[i % 3]
+                for o in s["ops"]:
+                    if o["op"] != "list" and o["k"] == 2:
+                        o["k"] = 3
+            else:
+                # both keys in one namespace: keys 1 and 2 of any layout
+                s["layout"] = i % 4
         kv_scripts += sc
-    kv_scripts = dedupe(kv_scripts)
-    cap = 6000 if thorough else 900
-    if len(kv_scripts) > cap:
-        kv_scripts = rng.sample(kv_scripts, cap)
-    for i, s in enumerate(kv_scripts):
-        s["layout"] = i % 4
     kv_spath = os.path.join(wd, "kv-scripts.ndjson")
     write_ndjson(kv_spath, kv_scripts)
 
@@ -247,7 +254,7 @@ def run(tier, seed):
     mup_scripts = dedupe([convert_mup(s) for s in sc])
     # prefer scripts that do something after the channel exists
     mup_scripts = [s for s in mup_scripts if sum(1 for o in s["ops"] if o["op"] == "upd") >= 1]
-    cap = 12000 if thorough else 1200
+    cap = 6000 if thorough else 1200
     if len(mup_scripts) > cap:
         mup_scripts = rng.sample(mup_scripts, cap)
     mup_spath = os.path.join(wd, "mup-scripts.ndjson")
@@ -266,8 +273,8 @@ def run(tier, seed):
         raise vlib.ToolError("file-system driver did not run")
 
     mup_trace = os.path.join(wd, "trace-mup.ndjson")
-    nhist = 12 if thorough else 4
-    nrand = 1500 if thorough else 130
+    nhist = 10 if thorough else 4
+    nrand = 600 if thorough else 130
     mup = run_engine(bins["kvstore"], ["--mode", "mup", "--out", mup_trace, "--scripts", mup_spath,
                                        "--histories", nhist, "--random", nrand, "--seed", seed],
                      os.path.join(wd, "summary-mup.json"), timeout=6000)
